@@ -24,7 +24,7 @@ func main() {
 	r.Rule("layer 1: seeded cases = scripted log(s) (entries of all four Raft types, payload profiles from 10 B to >4 MiB, optional initial compaction marker) + 8-47 steps " +
 		"(reader queries issued as LogServer.Replicate issues them, appends, applied-index advances, compactions, delivery of the LogCompacted event at once or later — through ShardCache.LogCompacted, or in half of the cases through an exported LogCompacted*(shard, compaction index) method if the cache has one —, NodeDeleted), " +
 		"cache size in {1,2,3,8,100}, maxSize from 1 B to 2^64-1 incl. exact cumulative-size boundaries, 1-2 shards on one ShardCache, with or without several calls in progress; " +
-		"layer 2: real engine (SnapshotEntries 10, CompactionOverhead 3, LogCacheSize in {1,2,3,8,100}), put/delete/txn histories in phases, after each phase every start index 0..applied+2 (+2 beyond) " +
+		"layer 2: real engine (SnapshotEntries 10, CompactionOverhead 3, LogCacheSize in {1,2,3,8,100}), put/delete/txn histories in phases that also contain commands stored WITH a leader_index of their own (SEQUENCE with labelled sub-commands as the replication worker proposes, PUT_BATCH as a restore proposes, both proposed by the harness on the table shard; every second history starts from a table restored through Engine.Restore from a stream ending with the leader-index marker), after each phase every start index 0..applied+2 (+2 beyond) " +
 		"on 6 real gRPC LogServers (cached/uncached reader x 200 B/1 KiB/4 MiB), then calls concurrent with a writer; a tailing follower polls the cached server after every proposal (so the cache holds the recent entries when a compaction happens) and after each phase the cached servers are first asked for exactly the compaction index and its neighbours. " +
 		"A case is non-trivial when at least one query was answered partly from the cache and partly from the log and at least one query came after a compaction; " +
 		"distinct by hash of the (cache shape relative to the log, query, limit class, answer length) list of its partly-cached answers")
@@ -61,7 +61,7 @@ func main() {
 	go func() {
 		defer wg.Done()
 		for i := 0; i < ne; i++ {
-			runL2(r, rep, caseID{Layer: 2, Seed: r.Seed*9_000_011 + int64(i)})
+			runL2(r, rep, caseID{Layer: 2, Seed: r.Seed*9_000_011 + int64(i), Restore: i%2 == 0})
 		}
 	}()
 
@@ -101,6 +101,8 @@ func main() {
 	r.FloorCount("l2_logcompacted_events_seen", int64(r.Pick(4, 40))) // the event hook must be alive, else layer 2 is lenient below the first index
 	r.FloorCount("l2_tailing_follower_polls", int64(r.Pick(100, 1000)))
 	r.FloorCount("l2_requests_exactly_at_compaction_index_judged_strictly", int64(r.Pick(6, 60)))
+	r.FloorCount("l2_streamed_commands_stored_with_own_leader_index", int64(r.Pick(50, 500)))
+	r.FloorCount("l2_restore_batches_streamed", int64(r.Pick(3, 30)))
 	r.FloorDistinct("l1_cache_size", 5)
 	r.Finish()
 }
